@@ -1,12 +1,14 @@
 (* C17 -- No client input takes the server down or disturbs other sessions.
    Statements only.  Every panic site of the modelled code that a request can reach is an explicit
    RCrash outcome of the model's step function (never a default value), so "cannot crash" is a
-   theorem about the model and not an artefact of totalisation.  PARTIAL, explicitly: only panic
-   sites in the modelled code are covered (store tree, insert arithmetic, debug assertions); the
-   lock-tree assertion, serde_json, tokio, hashbrown, allocation failure and stack depth are
-   exercised by the malformed-input stream of the correspondence (debug build), not proved. *)
+   theorem about the model and not an artefact of totalisation.  C17_no_request_crashes: along every
+   history of requests of EVERY kind (data, publishes, subscriptions, locks, sessions starting and
+   ending) no crash branch is taken.  PARTIAL, explicitly: only panic sites in the modelled code are
+   covered (store tree, lock tree, insert arithmetic, debug assertions); serde_json, tokio, hashbrown,
+   allocation failure and stack depth are exercised by the malformed-input stream of the
+   correspondence (debug build), not proved. *)
 From WB Require Import Base.Str Base.Json Model.Key Model.Store Model.Entry Model.Core Model.Codec Model.Session
-  Proofs.CoreFacts Proofs.C01Proof Proofs.C17Proof Proofs.SessionFacts.
+  Proofs.CoreFacts Proofs.C01Proof Proofs.C17Proof Proofs.SessionFacts Proofs.LockHistory Proofs.NoCrash.
 
 Theorem C17_data_request_no_crash :
   forall s o, Inv s -> c01_op o -> import_ok o ->
@@ -21,6 +23,20 @@ Theorem C17_data_history_no_crash :
     no_crash (run s ops).
 Proof. exact data_history_no_crash. Qed.
 Print Assumptions C17_data_history_no_crash.
+
+(* every request kind: [safe_op] excludes only a cset carrying version u64::MAX (known finding F17), an import of a
+   tree with irregular names, and the nil client id for session start and end (the server hands out the ids);
+   [Inv]: the data tree invariant, [LH]: the lock table invariant -- both hold initially and are kept *)
+Theorem C17_request_safe :
+  forall s o, Inv s -> LH s -> safe_op o ->
+    o_res (snd (step s o)) <> RCrash /\ Inv (fst (step s o)) /\ LH (fst (step s o)).
+Proof. exact step_safe. Qed.
+Print Assumptions C17_request_safe.
+
+Theorem C17_no_request_crashes :
+  forall ops, Forall safe_op ops -> nocrash (trace init ops).
+Proof. exact no_request_crashes. Qed.
+Print Assumptions C17_no_request_crashes.
 
 (* a line that does not decode ends the sender's session only *)
 Theorem C17_decode_error_closes_only_sender :
